@@ -77,7 +77,7 @@ def run(rep):
     rep.rule('R19.c', 'Reservoir: count once per add; appends and indexed stores entailed in-bounds; resize keeps len<=cap')
     # every group runs even when another one cannot be analysed (its gap is reported as ANALYSIS-ERROR at the end)
     rep.rule('R19.d', 'the StatsMiddleware instance the report reads / resets is the instance the routes run')
-    for group in (_request_records_once, _report_before_reset, _reported_count, _reservoir_add, _reservoir_resize,
+    for group in (_request_records_once, _report_before_reset, _reported_count, _report_read_only, _stats_app_routes, _reservoir_add, _reservoir_resize,
                   _reservoir_init, _reservoir_rest, _report_reads_running_instance):
         _guarded(rep, group, rep, repo, st)
     for rule, n in (('R19.a', 8), ('R19.b', 6), ('R19.c', 12), ('R19.d', 4)):
@@ -160,20 +160,44 @@ def _request_records_once(rep, repo, st):
                     isinstance(n.args[1], ast.Constant) and n.args[1].value == attr and (any_default or _class_name_of(n.args[2], v)):
                 return True
         return False
+    computed = []
+
+    def _rendered(e):
+        """the expression whose text rendering ``e`` is: repr(x) / str(x) / '%r' % x / f'{x!r}' -> x (else e itself)"""
+        while True:
+            if isinstance(e, ast.Call) and call_name(e) in ('repr', 'str', 'ascii') and len(e.args) == 1 and not e.keywords:
+                e = e.args[0]
+            elif isinstance(e, ast.BinOp) and isinstance(e.op, ast.Mod) and isinstance(e.left, ast.Constant) and e.left.value in ('%r', '%s'):
+                e = e.right.elts[0] if isinstance(e.right, ast.Tuple) and len(e.right.elts) == 1 else e.right
+            elif isinstance(e, ast.JoinedStr) and len(e.values) == 1 and isinstance(e.values[0], ast.FormattedValue) and e.values[0].format_spec is None:
+                e = e.values[0].value
+            else:
+                return e
     for s in sv_assigns:
         hs = [p for p in _ancestors(st, s) if isinstance(p, ast.ExceptHandler)]
         val = Lq.resolve(s.value, s)
+        core = _rendered(val)
         if hs:
             if hs[0].name and _lenient(val, hs[0].name, 'code'):
                 exc_ok = True
+                if not (isinstance(core, ast.Call) and call_name(core) == 'getattr'):
+                    computed.append(s)
         elif any(_lenient(val, v, 'status_code', True) or
                  any(isinstance(n, ast.Attribute) and n.attr == 'status_code' and norm(n.value) == v for n in ast.walk(val)) for v in nd):
             body_ok = True
+            if not ((isinstance(core, ast.Call) and call_name(core) == 'getattr') or (isinstance(core, ast.Attribute) and core.attr == 'status_code')):
+                computed.append(s)
+    if computed:
+        # the key is a function of the code, not the code: several codes would be counted under one key
+        body_ok = body_ok and not any(not [p for p in _ancestors(st, s) if isinstance(p, ast.ExceptHandler)] for s in computed)
+        exc_ok = exc_ok and not any([p for p in _ancestors(st, s) if isinstance(p, ast.ExceptHandler)] for s in computed)
     rep.check('R19.a', fkey(rq, 'status key (result)'), body_ok, 'status key derives from status_code of the next() result' if body_ok else
-              'status key on the normal path does not derive from the result\'s status_code', st, rq.node)
+              'status key on the normal path is not the result\'s status_code itself (rendered as text)%s'
+              % (': it is computed from it (%s)' % short(computed[0]) if computed else ''), st, rq.node)
     rep.check('R19.a', fkey(rq, 'status key (exception)'), exc_ok,
               'status key derives from the exception\'s code, else its class name' if exc_ok else
-              'status key on the exceptional path does not derive from exception code / class name', st, rq.node)
+              'status key on the exceptional path is not the exception\'s code / class name itself%s'
+              % (': it is computed from it (%s)' % short(computed[0]) if computed else ''), st, rq.node)
     # Hit field order: the recorded value is Hit(...) with the arguments lined up with the namedtuple's fields
     fields = None
     for v in st.assigns.get('Hit', []):
@@ -269,6 +293,15 @@ def _report_before_reset(rep, repo, st):
         cfg_rs.must_pass(cfg_rs.nodes_of(asg[0][0]), cfg_rs.entry, cfg_rs.exit)
     rep.check('R19.b', fkey(rs, 'self.route_hits'), ok, 'reset() rebinds route_hits to a freshly constructed mapping' if ok else
               'reset() does not rebind route_hits to a fresh mapping', st, rs.node)
+    # every (route, status) cell is a reservoir of its own: the factories of the table construct, they never hand out an object
+    # that already exists (one shared reservoir / inner table would add the counts of different routes or statuses together)
+    if len(asg) == 1:
+        shared = _shared_cell(repo, rs, Ls.resolve(asg[0][1], asg[0][0]), asg[0][0], Ls)
+        if shared is not None:
+            rep.check('R19.b', fkey(rs, 'a reservoir per (route, status)'), not shared[0],
+                      'the factories of the table construct a new inner table / reservoir for every missing key' if not shared[0] else
+                      'the table hands out an existing object for a missing key (%s): different routes / statuses are counted in one and the '
+                      'same object, so no count is the number of requests of its route and status' % shared[1], st, asg[0][0])
     init = st.func('StatsMiddleware.__init__')
     cfg_i = cfg_of(init)
     Lin = diffcon.Locals(init.node, cfg_i)
@@ -278,6 +311,43 @@ def _report_before_reset(rep, repo, st):
     ok = bool(starts) and cfg_i.must_pass(cfg_i.nodes_of_all(starts), cfg_i.entry, cfg_i.exit)
     rep.check('R19.b', fkey(init, 'reset()'), ok, 'constructor initialises the counters (through reset() / a fresh mapping)' if ok else
               'constructor no longer initialises the counters through reset()', st, init.node)
+
+
+def _shared_cell(repo, fi, e, anchor, L, depth=0):
+    """The mapping expression ``e`` (named temporaries looked through): does a missing key get an object that already exists?
+    -> (True, text) yes; (False, '') every level constructs; None: no factory here (cells are made elsewhere)."""
+    if depth > 4 or not (isinstance(e, ast.Call) and call_tail(e) == 'defaultdict' and e.args):
+        return None
+    f = e.args[0]
+    if isinstance(f, ast.Call) and call_tail(f) == 'partial' and f.args:        # partial(defaultdict, C)
+        f = ast.Lambda(args=ast.arguments(posonlyargs=[], args=[], vararg=None, kwonlyargs=[], kw_defaults=[], kwarg=None, defaults=[]),
+                       body=ast.Call(func=f.args[0], args=list(f.args[1:]), keywords=list(f.keywords)))
+    if isinstance(f, ast.Lambda):
+        a = f.args
+        if a.args or a.posonlyargs or a.kwonlyargs or a.vararg or a.kwarg:
+            raise AnalysisError('%s: factory %s takes arguments' % (fi.key, short(f)))
+        body = f.body
+        if isinstance(body, (ast.Name, ast.Attribute, ast.Subscript)):
+            return True, '%s returns %s' % (short(f), short(body))
+        if isinstance(body, ast.Call):
+            if call_tail(body) == 'defaultdict':
+                sub = _shared_cell(repo, fi, body, anchor, L, depth + 1)
+                return sub if sub is not None else (False, '')
+            if _internal_class(repo, fi.mod, body.func) is not None or call_name(body) in ('dict', 'list', 'set'):
+                return False, ''
+        if isinstance(body, (ast.Dict, ast.List, ast.Set, ast.DictComp, ast.ListComp)):
+            return False, ''
+        raise AnalysisError('%s: cannot tell whether the factory %s constructs a new object per key' % (fi.key, short(f)))
+    if isinstance(f, (ast.Name, ast.Attribute)):
+        if _internal_class(repo, fi.mod, f) is not None or norm(f) in ('dict', 'list', 'set', 'int', 'float'):
+            return False, ''
+        # a local holding a function / an object: a bound lambda is looked through, anything else is not a constructor
+        if isinstance(f, ast.Name):
+            b = L.binding(f.id, anchor)
+            if b is not None and isinstance(b[0], ast.Lambda):
+                return _shared_cell(repo, fi, ast.Call(func=e.func, args=[b[0]], keywords=[]), anchor, L, depth + 1)
+        raise AnalysisError('%s: cannot tell what the factory %s of the table makes' % (fi.key, short(f)))
+    raise AnalysisError('%s: factory %s of the table not understood' % (fi.key, short(f)))
 
 
 def _reads_table(repo, fi, depth=0, seen=()):
@@ -358,6 +428,140 @@ def _reported_count(rep, repo, st):
             break
     rep.check('R19.b', fkey(grs, "['count']"), ok, 'reported count is the reservoir total_count (not the sample size)' if ok else
               'reported count is not the reservoir\'s total_count: %s' % why, st, grs.node)
+
+
+MAP_WRITERS = {'pop', 'popitem', 'clear', 'update', 'setdefault', '__delitem__', '__setitem__'}
+
+
+def _report_path(repo, st, start):
+    """the functions a report runs: ``start`` and everything it calls that resolves into the stats module"""
+    out = []
+
+    def visit(fi):
+        if any(fi is f for f in out) or fi.mod is not st or len(out) >= 16:
+            return
+        out.append(fi)
+        for c in walk_body(fi.node):
+            if isinstance(c, ast.Call):
+                f = _resolve_call(repo, fi, c)[0]
+                if f is not None:
+                    visit(f)
+    visit(start)
+    return out
+
+
+def _writes_own_state(repo, m, depth=0):
+    """method ``m`` stores into / mutates an attribute of its receiver (itself or through the methods it calls on it)"""
+    sn = _self_name(m)
+    if sn is None or depth > 3:
+        return None
+    for e in effects.effects_in(m.node):
+        if e.chain and e.chain[0] == sn and len(e.chain) > 1:
+            return e
+    for c in walk_body(m.node):
+        if isinstance(c, ast.Call) and isinstance(c.func, ast.Attribute) and isinstance(c.func.value, ast.Name) and c.func.value.id == sn and m.cls is not None:
+            callee = repo.find_method(m.cls, c.func.attr)
+            if callee is not None and not callee.mod.external and callee is not m:
+                e = _writes_own_state(repo, callee, depth + 1)
+                if e is not None:
+                    return e
+    return None
+
+
+def _report_read_only(rep, repo, st):
+    """the read side leaves the counters as they are: computing a report never resets, removes, resizes or adds anything in the
+    table it reads (the only writer on the report-and-reset path is the reset() after the report)"""
+    start = st.func('get_stats_dict')
+    funcs = _report_path(repo, st, start)
+    for fi in funcs:
+        bad = None
+        for n in walk_body(fi.node):
+            if bad is not None:
+                break
+            if isinstance(n, ast.Call) and isinstance(n.func, ast.Attribute):
+                anchor = stmt_of(st, n)
+                if n.func.attr == 'reset' and not n.args and not n.keywords:
+                    bad = (n, 'resets the counters (%s)' % short(n))
+                    break
+                t = _type_of(repo, fi, n.func.value, anchor) if anchor is not None else None
+                if t is not None and t[0] == 'map' and n.func.attr in MAP_WRITERS:
+                    bad = (n, 'changes the table it reads (%s)' % short(n))
+                elif t is not None and t[0] == 'inst':
+                    m = repo.find_method(t[1], n.func.attr)
+                    if m is not None and not m.mod.external and _self_name(m) is not None and not any(m is f for f in funcs):
+                        e = _writes_own_state(repo, m)
+                        if e is not None:
+                            bad = (n, 'calls %s, which writes %s' % (short(n), norm(e.target)))
+            elif isinstance(n, (ast.Subscript, ast.Attribute)) and isinstance(n.ctx, (ast.Store, ast.Del)):
+                anchor = stmt_of(st, n)
+                t = _type_of(repo, fi, n.value, anchor) if anchor is not None else None
+                if t is not None and (t[0] == 'map' or (t[0] == 'inst' and isinstance(n, ast.Attribute))):
+                    bad = (n, 'stores into the live statistics (%s)' % short(anchor))
+        rep.check('R19.b', fkey(fi, 'report is read-only'), bad is None,
+                  'computing the report changes nothing in the counters it reads' if bad is None else
+                  'the report %s: a read of the statistics changes them, so the counts no longer sum to the requests since the last reset'
+                  % bad[1], st, bad[0] if bad is not None else fi.node)
+
+
+ROUTE_METHODS = {'GET': ('GET',), 'POST': ('POST',), 'PUT': ('PUT',), 'DELETE': ('DELETE',), 'PATCH': ('PATCH',), 'HEAD': ('HEAD',)}
+
+
+def _resets(repo, st, fi):
+    """``fi`` (transitively, inside the stats module) calls <x>.reset()"""
+    return any(isinstance(c, ast.Call) and isinstance(c.func, ast.Attribute) and c.func.attr == 'reset' and not c.args
+               for f in _report_path(repo, st, fi) for c in walk_body(f.node))
+
+
+def _stats_app_routes(rep, repo, st):
+    """the routing table of the stats application: some route runs the report-and-reset endpoint, and no route that answers GET
+    (a plain read) resets"""
+    mk = st.func('create_stats_app')
+    L = diffcon.Locals(mk.node, cfg_of(mk))
+    apps = [c for c in walk_body(mk.node) if isinstance(c, ast.Call) and call_name(c) == 'Application' and (c.args or c.keywords)]
+    if len(apps) != 1:
+        raise AnalysisError('create_stats_app: expected one Application(...) construction')
+    arg = apps[0].args[0] if apps[0].args else [k.value for k in apps[0].keywords if k.arg == 'routes'][0]
+    table = L.resolve(arg, stmt_of(st, apps[0]))
+    if not isinstance(table, (ast.List, ast.Tuple)) or any(isinstance(e, ast.Starred) for e in table.elts):
+        raise AnalysisError('create_stats_app: the routes given to Application(...) are not a literal list (%s)' % short(table))
+    rows = []
+    for e in table.elts:
+        e = L.resolve(e, stmt_of(st, apps[0]))
+        methods = None      # None: every method (GET included)
+        if isinstance(e, ast.Call) and not any(isinstance(a, ast.Starred) for a in e.args):
+            cname = call_tail(e)
+            if cname in ROUTE_METHODS:
+                methods = ROUTE_METHODS[cname]
+            elif cname == 'Route':
+                mk_ = [k.value for k in e.keywords if k.arg == 'methods']
+                if mk_:
+                    f = repo.try_fold(mk_[0], st)
+                    if not isinstance(f, (list, tuple, set, frozenset)):
+                        raise AnalysisError('create_stats_app: methods of %s not constant' % short(e))
+                    methods = tuple(str(x).upper() for x in f)
+            else:
+                raise AnalysisError('create_stats_app: route %s not understood' % short(e))
+            parts = list(e.args)
+            kw = dict((k.arg, k.value) for k in e.keywords)
+            ep = parts[1] if len(parts) > 1 else kw.get('endpoint')
+        elif isinstance(e, ast.Tuple) and len(e.elts) >= 2:
+            ep = e.elts[1]
+        else:
+            raise AnalysisError('create_stats_app: route %s not understood' % short(e))
+        f = _callee(repo, mk, ast.Call(func=ep, args=[], keywords=[])) if isinstance(ep, ast.Name) else None
+        if f is None:
+            raise AnalysisError('create_stats_app: endpoint %s of route %s is not a function of the analysed tree' % (short(ep), short(e)))
+        rows.append((e, methods, f, _resets(repo, st, f)))
+    resetting = [r for r in rows if r[3]]
+    rep.check('R19.b', fkey(mk, 'a route resets'), bool(resetting),
+              'the stats application has a route whose endpoint reports and resets (%s)' % ', '.join(r[2].name for r in resetting) if resetting else
+              'no route of the stats application resets the counters (%s): the reset endpoint returns totals but counting never starts again from zero'
+              % ', '.join(r[2].name for r in rows), st, table if hasattr(table, 'lineno') else mk.node)
+    bad = [r for r in resetting if r[1] is None or 'GET' in r[1] or 'HEAD' in r[1]]
+    rep.check('R19.b', fkey(mk, 'reads do not reset'), not bad,
+              'every route that answers GET runs an endpoint that leaves the counters alone' if not bad else
+              'the route %s answers GET and its endpoint %s resets the counters: merely looking at the statistics zeroes them, so the counts '
+              'no longer sum to the requests since the last reset' % (short(bad[0][0]), bad[0][2].name), st, bad[0][0] if bad and hasattr(bad[0][0], 'lineno') else mk.node)
 
 
 # ---- R19.c ---------------------------------------------------------------------------------------------------------
@@ -481,6 +685,45 @@ def _reservoir_init(rep, repo, st):
                  for c in caps for l in loc)
     rep.check('R19.c', fkey(ri, 'numeric capacity'), ok, 'any other value is taken as the capacity itself (int(cap))' if ok else
               'a numeric cap is not stored as the capacity', st, ri.node)
+    # the count starts as the number of values the store starts with: len() of the very object bound to _data
+    data_st = [s for s in stmts_of(ri.node) for t, v in _assign_pairs(s) if norm(t) == DATA]
+    cnt_st = [(s, v) for s in stmts_of(ri.node) for t, v in _assign_pairs(s) if norm(t) == 'self._total_count']
+    if len(data_st) != 1 or not cnt_st:
+        raise AnalysisError('Reservoir.__init__: expected one binding of self._data and an initial self._total_count')
+    data_val = [v for t, v in _assign_pairs(data_st[0]) if norm(t) == DATA][0]
+    for s, v in cnt_st:
+        r = Li.resolve(v, s)
+        ok = isinstance(r, ast.Call) and call_name(r) == 'len' and len(r.args) == 1 and not r.keywords and \
+            (norm(r.args[0]) == DATA or Li.same(r.args[0], s, data_val, data_st[0]) or _same_name_between(cfg_of(ri), r.args[0], s, data_val, data_st[0]))
+        if not ok and isinstance(Li.resolve(data_val, data_st[0]), ast.List) and not Li.resolve(data_val, data_st[0]).elts:
+            ok = isinstance(r, ast.Constant) and r.value == 0 and type(r.value) is int
+        rep.check('R19.c', fkey(ri, 'initial count'), ok, 'the count starts as len() of the object bound to _data' if ok else
+                  'the count starts as %s, not as the number of values the store starts with (len of the object bound to _data): '
+                  'count and store disagree from the first add() on' % short(v), st, s)
+    # initial values are fed through add() (which counts and bounds them): nothing else in the constructor writes into the store
+    mut = [c for c in walk_body(ri.node) if isinstance(c, ast.Call) and isinstance(c.func, ast.Attribute) and c.func.attr in MUTATORS
+           and Li.text(c.func.value, stmt_of(st, c)) in (DATA, norm(Li.resolve(data_val, data_st[0])))]
+    sub_st = [s for s in stmts_of(ri.node) if isinstance(s, (ast.Assign, ast.AugAssign, ast.Delete)) and
+              any(isinstance(t, ast.Subscript) and Li.text(t.value, s) == DATA for t in (s.targets if not isinstance(s, ast.AugAssign) else [s.target]))]
+    feeds = [l for l in stmts_of(ri.node) if isinstance(l, ast.For) and isinstance(l.target, ast.Name) and
+             any(isinstance(c, ast.Call) and norm(c.func) == '%s.add' % (_self_name(ri) or 'self') and len(c.args) == 1 and norm(c.args[0]) == l.target.id
+                 for b in l.body for c in ast.walk(b))]
+    leaked = []
+    for l in feeds:
+        for nm in set(n.id for n in ast.walk(l.iter) if isinstance(n, ast.Name) and n.id in ri.params() and n.id != capp):
+            in_loop = set(id(n) for n in ast.walk(l.iter))
+            for n in walk_body(ri.node):
+                if isinstance(n, ast.Name) and n.id == nm and isinstance(n.ctx, ast.Load) and id(n) not in in_loop:
+                    par = st.parents.get(n)
+                    while isinstance(par, (ast.BoolOp, ast.UnaryOp, ast.Compare)):
+                        n, par = par, st.parents.get(par)
+                    if not (isinstance(par, (ast.If, ast.While, ast.IfExp, ast.Assert)) and par.test is n):
+                        leaked.append(n)
+    ok = not mut and not sub_st and not leaked
+    rep.check('R19.c', fkey(ri, 'initial values go through add()'), ok,
+              'the constructor puts values into the store only by calling add() (%d feeding loop(s))' % len(feeds) if ok else
+              'the constructor writes initial values into the store without add() (%s): they are neither counted nor bounded by the capacity'
+              % short((mut or sub_st or leaked)[0]), st, (mut or sub_st or leaked)[0] if (mut or sub_st or leaked) else ri.node)
 
 
 def _reservoir_rest(rep, repo, st):
@@ -493,8 +736,15 @@ def _reservoir_rest(rep, repo, st):
                 ch = e.chain or []
                 if any(a in ch for a in ('_data', '_cap', '_total_count')):
                     writers.append((m, fi, e))
+    count_writers = {'Reservoir.__init__', 'Reservoir.add'}      # the number of values added changes only where a value is added
     for m, fi, e in writers:
         ok = m is st and fi.qualname in allowed
+        counts = '_total_count' in (e.chain or [])
+        if ok and counts and fi.qualname not in count_writers:
+            rep.check('R19.c', 'writer::%s::%s' % (fi.key, norm(e.target)), False,
+                      '%s writes %s: the number of values added is changed by something other than adding a value (the reported '
+                      'count is no longer the number of add() calls)' % (fi.key, norm(e.target)), m, e.node)
+            continue
         rep.check('R19.c', 'writer::%s::%s' % (fi.key, norm(e.target)), ok,
                   'writer of the sample store is one of Reservoir\'s own methods' if ok else
                   '%s writes the sample store state (%s) outside Reservoir.__init__/add/resize' % (fi.key, norm(e.target)), m, e.node)
@@ -860,6 +1110,21 @@ def _merge_keeps(mm, kept):
                 if n.func.attr not in ADDERS:
                     raise AnalysisError('merge_middlewares: effect of %s on the merged list unknown' % short(n))
     return True, 'the result starts as a copy of it; afterwards elements are only added', None
+
+
+def _same_name_between(cfg, e1, s1, e2, s2):
+    """``e1`` at statement ``s1`` and ``e2`` at ``s2`` are the same plain name and nothing on the way from one statement to the other
+    re-binds it (a parameter defaulted earlier: ``if x is None: x = []`` before both)"""
+    if not (isinstance(e1, ast.Name) and isinstance(e2, ast.Name) and e1.id == e2.id):
+        return False
+    n1 = [n for n in cfg.nodes_of(s1) if cfg.reachable(n)]
+    n2 = [n for n in cfg.nodes_of(s2) if cfg.reachable(n)]
+    if not n1 or not n2:
+        return False
+    a1 = [m for x in n1 for m in cfg.succ[x]]
+    a2 = [m for x in n2 for m in cfg.succ[x]]
+    mid = ((cfg.reach(a1) & cfg.coreach(n2)) | (cfg.reach(a2) & cfg.coreach(n1))) - set(n1) - set(n2)
+    return not cfg._kills(e1, mid)
 
 
 def _uniq(xs):
